@@ -474,8 +474,14 @@ def run_e2e(case):
     from gen import scenario
     files = scenario.scenario_events(R=case["R"], groups=case["groups"], freq=float(case["freq"]), seed=case["gen_seed"],
                                      dev_epochs=case["dev_epochs"], host_epochs=case["host_epochs"])
+    # switches the wrap correction does not depend on (they register or leave out LATER stages); chosen from the case
+    extra = [[], ["--drop_globals"], ["-t"], ["--flow"], ["--disable_tb"], ["-k"], ["-M"], ["-C", "power_ts4"],
+             ["--drop_globals", "--flow", "-t"]][case["gen_seed"] % 9]
+    if case["R"] == 1:
+        # a one-rank "collective" of the scenario builder has an empty peer list: not a well-formed flow input
+        extra = [x for x in extra if x != "--flow"]
     with contextlib.redirect_stdout(io.StringIO()):
-        return stage.e2e([f"--freq={case['freq']}:1100", "--keep_prep"], files)
+        return stage.e2e([f"--freq={case['freq']}:1100", "--keep_prep"] + extra, files)
 
 
 def oracle_e2e(case, r):
